@@ -370,8 +370,19 @@ func c16(c *Ctx) {
 	})
 
 	c.Rule("C16.R3", "flusher: WaitGroup.Add(len(backends)) matches one SendMetricsAsync per backend, each callback calls Done exactly once, flushData waits for them", 5, func(r *Rule) {
-		sm := w.Func("pkg/statsd", "(*MetricFlusher).sendMetricsAsync")
+		sm := w.funcExact("pkg/statsd", "(*MetricFlusher).sendMetricsAsync")
 		fd := w.Func("pkg/statsd", "(*MetricFlusher).flushData")
+		inPlace := false
+		if sm == nil && fd != nil {
+			// the fan-out written in place: the function literal of flushData that invokes the backends
+			for _, g := range WithAnon(fd)[1:] {
+				for _, cl := range callsIn(g) {
+					if cl.Common().IsInvoke() && cl.Common().Method.Name() == "SendMetricsAsync" {
+						sm, inPlace = g, true
+					}
+				}
+			}
+		}
 		if sm == nil || fd == nil {
 			r.Unresolved("(*MetricFlusher).sendMetricsAsync / flushData")
 			return
@@ -440,7 +451,9 @@ func c16(c *Ctx) {
 		var addWg ssa.Value
 		if add != nil {
 			addWg = ptrOrigin(add.Common().Args[0])
-			if _, isParam := addWg.(*ssa.Parameter); !isParam {
+			_, isParam := addWg.(*ssa.Parameter)
+			al, isLocal := addWg.(*ssa.Alloc)
+			if !isParam && !(inPlace && isLocal && al.Parent() == fd) {
 				okSame = false
 			}
 		}
@@ -451,7 +464,11 @@ func c16(c *Ctx) {
 		}
 		r.Check("callback:same-waitgroup", okSame, cbf.Pos(), "Add and Done use the same WaitGroup (sendMetricsAsync's parameter)")
 		// the same context and map are passed
-		r.Check("sendMetricsAsync:passes-map", paramIndex(sm, send.Common().Args[1]) == 3, send.Pos(), "the flushed map is passed to the backend")
+		mapIdx := 3
+		if inPlace {
+			mapIdx = 0 // the literal's only parameter
+		}
+		r.Check("sendMetricsAsync:passes-map", paramIndex(sm, send.Common().Args[1]) == mapIdx, send.Pos(), "the flushed map is passed to the backend")
 		// flushData waits
 		// the WaitGroup handed to sendMetricsAsync (the parameter Add/Done use) is a local of flushData ...
 		var handed ssa.Value
@@ -463,6 +480,9 @@ func c16(c *Ctx) {
 					wgIdx = i
 				}
 			}
+		}
+		if al, ok := addWg.(*ssa.Alloc); ok && inPlace && al.Parent() == fd {
+			handed, okWg = addWg, true
 		}
 		for _, g := range WithAnon(fd) {
 			for _, cl := range callsIn(g) {
